@@ -346,9 +346,14 @@ def main(argv=None):
             if not ok:
                 sent_report.append(dict(name=sent.name, status='not-applicable: source text not found'))
                 continue
-            rs = run_tasks(sub)
-        killed = any(c['failed'] for t_, r in zip(sub, rs) for cn, c in r['checks'].items() if cn not in t_.expect_fail) \
-            or any(r['errors'] for r in rs)
+            global _TASKS
+            _TASKS = sub
+            killed = False
+            for i_ in range(len(sub)):
+                r = _run_task(i_)[1]
+                if any(c['failed'] for cn, c in r['checks'].items() if cn not in sub[i_].expect_fail) or r['errors']:
+                    killed = True
+                    break
         sent_report.append(dict(name=sent.name, status='killed' if killed else 'SURVIVED'))
         if not killed:
             vacuity.append('mutation sentinel survived: %s' % sent.name)
